@@ -192,6 +192,13 @@ class LifeWorld(ConnWorld):
 
     def _on_stop(self, expected: bool) -> None:
         super()._on_stop(expected)
+        # the stop callback is user code running in the middle of the close: what it sees must already be consistent
+        try:
+            flag, st = bool(self.conn.is_connected), self.state()
+        except Exception:  # noqa: BLE001
+            return
+        if flag != (st == "CONNECTED"):
+            self.mon.viol.append(f"C05:flag:inside the stop callback is_connected={flag} while the state reads {st}")
 
     def state(self) -> str:
         return self.conn.connection_state.name
